@@ -13,6 +13,7 @@ import Generated.Mib
 import FlexModel.Geo.RouterSecLemmas
 import Generated.RouterRx
 import FlexModel.Geo.RouterDplConc
+import FlexModel.Geo.RouterCbfConc
 
 namespace Props.C06
 open FlexModel.Geo
@@ -756,5 +757,42 @@ theorem split_refresh_loses_dpl_witness :
   decide
 
 end TwoThreads
+
+/-! ### Round 6: the CBF buffer under two receive threads (`_cbf_lock` sections) -/
+section CbfTwoThreads
+open FlexModel.Geo.RouterCbfConc
+
+/-- regenerated from the SOURCE (harness/gen_locks.py → `Generated.Locks.shape / accesses`): in `gn_area_cbf_forwarding` the
+test "already buffered?" and the insertion are ONE `_cbf_lock` section, `_cbf_discard` and `_cbf_timeout` are one section
+each and `_cbf_buffer` is never touched outside `_cbf_lock` (seeded change C06-m11 narrows the section into test / insert:
+the obligation no longer checks) -/
+theorem cbf_test_and_insert_is_one_section : cbfBufferingIsOneSection = true := by decide
+
+/-- TWO (or more) RECEIVE THREADS, EVERY SCHEDULE of `_cbf_lock` sections: from ANY buffer `b`, after a thread's
+`gn_area_cbf_forwarding` section for `k` (`buf k`), any sections `e1` of other threads / the timer thread, the overheard
+duplicate's `_cbf_discard k`, and any further sections `e2` - none of `e1`, `e2` buffering `k` anew (every later copy of `k`
+is a DPD duplicate: `concurrent_duplicate_is_suppressed`) - the copy is NOT waiting in the buffer: it will not be
+re-broadcast.  Rests on the one-section shape (`cbf_test_and_insert_is_one_section`). -/
+theorem overheard_duplicate_drops_copy (b : List CKey) (k : CKey) (e1 e2 : List CBlk) (h2 : ∀ x ∈ e2, NoIns k x) :
+    k ∉ brun b (.buf k :: (e1 ++ .disc k :: e2)) := by
+  simp only [brun, List.foldl_cons, List.foldl_append]
+  exact run_keeps_absent k e2 h2 _ (disc_removes _ k)
+
+/-- non-vacuity: another packet is buffered and fires, a third one is buffered and discarded in between -/
+example : (5, 100) ∉ brun [(6, 3)] (.buf (5, 100) :: ([.fire (6, 3), .buf (7, 1)] ++ .disc (5, 100) :: [.disc (7, 1), .buf (6, 4)])) :=
+  overheard_duplicate_drops_copy _ _ _ _ (by intro x hx; simp only [List.mem_cons, List.mem_nil_iff, or_false] at hx
+                                             rcases hx with rfl | rfl <;> simp [NoIns])
+
+/-- WITNESS (seeded change C06-m11: test under the lock / PDU and timer built outside / insertion in a second section).
+Thread A tests (5, 100): not buffered; thread B overhears the duplicate: `_cbf_discard` finds nothing; A inserts: the copy
+waits in the buffer and is re-broadcast at expiry.  With the one-section shape the same two receptions leave the buffer
+empty; without anything in between the split shape equals the one-section shape (the single-threaded suite cannot see it). -/
+theorem split_buffering_keeps_copy_witness :
+    (5, 100) ∈ brun [] [.chk (5, 100), .disc (5, 100), .ins (5, 100)] ∧
+    brun [] [.buf (5, 100), .disc (5, 100)] = [] ∧
+    brun [] [.chk (5, 100), .ins (5, 100)] = brun [] [.buf (5, 100)] := by
+  decide
+
+end CbfTwoThreads
 
 end Props.C06
